@@ -47,8 +47,15 @@ class FlowGen:
         self.closure_vars = set()
         self.nloop = 0
         self.stack = []
-        # every fourth function or so concentrates on jumps that leave nested try/finally statements
+        # every fifth function or so concentrates on jumps that leave nested try/finally statements ('finprobe'); those
+        # functions take at most 3 input bits: a mis-compiled probe crashes for half of the inputs, and every crash costs
+        # the differential driver a process restart
         self.jump_focus = rng.random() < 0.2
+        if self.jump_focus:
+            self.max_bits = min(self.max_bits, 3)
+            self.max_depth = min(self.max_depth, 2)
+            self.vars = self.vars[:3]
+            self.profile = {v: self.profile[v] for v in self.vars}
 
     # ---------------------------------------------------------------- helpers
     def bit(self):
@@ -118,8 +125,7 @@ class FlowGen:
             return self.leaf(ind)
         kinds = [('leaf', 30), ('if', 20), ('for', 9), ('while', 5), ('try', 12), ('tryfin', 6), ('with', 5), ('match', 4),
                  ('comp', 3), ('inner', 9), ('exc_as', 4), ('forvar', 4), ('elseprobe', 6), ('finprobe', 7)]
-        if self.jump_focus:
-            kinds = [(k_, 45 if k_ == 'finprobe' else w_) for k_, w_ in kinds]
+        kinds = [(k_, (90 if self.jump_focus else 0) if k_ == 'finprobe' else w_) for k_, w_ in kinds]
         if 'loop' in self.stack:
             kinds.append(('brk', 8))
         tot = sum(w for _, w in kinds)
@@ -294,7 +300,7 @@ class FlowGen:
             # the innermost clause mostly changes what is bound; outer clauses do so less often, so that many probes
             # depend on one particular clause being run
             r = rng.random()
-            p_del, p_set, p_rd = (0.5, 0.65, 0.85) if innermost else (0.22, 0.36, 0.62)
+            p_del, p_set, p_rd = (0.5, 0.65, 0.85) if innermost else (0.18, 0.30, 0.50)
             if r < p_del:
                 return [i + 'try:', i + '    del %s' % v, i + 'except NameError as e_:', i + "    log(('del', type(e_).__name__))"]
             if r < p_set:
@@ -362,7 +368,7 @@ def gen_function(rng, name):
     for _ in range(30):
         fg = FlowGen(rng, name, nvars=rng.randint(2, 4), max_depth=rng.randint(2, 4))
         src = fg.function()
-        if len(src.splitlines()) > 80:
+        if len(src.splitlines()) > (130 if fg.jump_focus else 80):
             continue
         try:
             compile(src, name, 'exec')
